@@ -17,15 +17,6 @@ def wrL : List RT → List Tok
 end
 
 mutual
-/-- every leaf writes at least one token (a tag or a length) -/
-def LL : RT → Prop
-  | .node l e cs => (match cs with | [] => (l.isSome = true ∨ e.isSome = true) | _ :: _ => True) ∧ LLL cs
-def LLL : List RT → Prop
-  | [] => True
-  | c :: cs => LL c ∧ LLL cs
-end
-
-mutual
 def need : RT → Nat
   | .node _ _ cs => 2 + needL cs
 def needL : List RT → Nat
@@ -44,18 +35,28 @@ theorem tail_spec (cs : List RT) (l e : Option Str) (d : Follow) (rest : List To
     parseTail cs none none (lab l ++ ln e ++ d.tok :: rest) = some (.node l e cs, d.after rest) := by
   cases l <;> cases e <;> cases d <;> simp [lab, ln, parseTail, Follow.tok, Follow.after]
 
-/-- first token of a written tree whose leaves write something: `(`, a word or `:` — never `,` or `)` -/
-theorem wr_head (t : RT) (h : LL t) (tl : List Tok) :
+/-- the blank node: no tag, no length, no children — it writes nothing -/
+def isBlank : RT → Bool
+  | .node none none [] => true
+  | _ => false
+
+theorem blank_eq (t : RT) (h : isBlank t = true) : t = blank := by
+  cases t with
+  | node l e cs => cases l <;> cases e <;> cases cs <;> simp [isBlank, blank] at h ⊢
+
+theorem wr_blank : wr blank = [] := by simp [blank, wr, lab, ln]
+
+/-- first token of anything but the blank node: `(`, a word or `:` — never `,` `)` `;` -/
+theorem wr_head (t : RT) (h : isBlank t = false) (tl : List Tok) :
     (∃ r, wr t ++ tl = .lp :: r) ∨ (∃ w r, wr t ++ tl = .word w :: r) ∨ (∃ r, wr t ++ tl = .colon :: r) := by
   cases t with
   | node l e cs =>
     cases cs with
     | nil =>
-      simp only [LL] at h
       cases l with
       | none =>
         cases e with
-        | none => simp at h
+        | none => simp [isBlank] at h
         | some x => right; right; exact ⟨.word x :: tl, by simp [wr, lab, ln]⟩
       | some w => right; left; exact ⟨w, ln e ++ tl, by simp [wr, lab]⟩
     | cons c cs' => left; exact ⟨_, by simp [wr]; rfl⟩
@@ -90,93 +91,136 @@ theorem pc_colon (f : Nat) (r : List Tok) (acc : List RT) (cr : Bool) (cnt : Nat
     | some x => obtain ⟨c, r', b⟩ := x; cases b <;> rfl
   all_goals (intro _ h; cases h)
 
-theorem pc_child (f : Nat) (t : RT) (h : LL t) (tl : List Tok) (acc : List RT) (cr : Bool) (cnt : Nat) :
+theorem pc_child (f : Nat) (t : RT) (h : isBlank t = false) (tl : List Tok) (acc : List RT) (cr : Bool) (cnt : Nat) :
     parseChildren (f + 1) (wr t ++ tl) acc cr cnt = contChild f acc cnt (parseNode f (wr t ++ tl)) := by
   rcases wr_head t h tl with ⟨r, hr⟩ | ⟨w, r, hr⟩ | ⟨r, hr⟩
   · rw [hr]; exact pc_lp f r acc cr cnt
   · rw [hr]; exact pc_word f w r acc cr cnt
   · rw [hr]; exact pc_colon f r acc cr cnt
 
-theorem pc_comma_child (f : Nat) (t : RT) (h : LL t) (tl : List Tok) (acc : List RT) (cnt : Nat) :
-    parseChildren (f + 1) (.comma :: (wr t ++ tl)) acc true cnt = parseChildren f (wr t ++ tl) acc true (cnt + 1) := by
-  rcases wr_head t h tl with ⟨r, hr⟩ | ⟨w, r, hr⟩ | ⟨r, hr⟩
-  · rw [hr]; simp [parseChildren, eatCommas]
-  · rw [hr]; simp [parseChildren, eatCommas]
-  · rw [hr]; simp [parseChildren, eatCommas]
+/-- the `,` branch of the children loop after its first step (`acc1` already holds the leading blank, if any) -/
+def K (f : Nat) (rest : List Tok) (acc1 : List RT) (created : Bool) (cnt : Nat) : Option (List RT × List Tok) :=
+  match eatCommas rest acc1 with
+  | (acc2, rest2) =>
+    match rest2 with
+    | .rp :: _ => parseChildren f rest2 (acc2 ++ [blank]) true (cnt + 1)
+    | _ => parseChildren f rest2 acc2 created (cnt + 1)
 
-theorem wrL_cons_head (c d : RT) (ds : List RT) (tl : List Tok) :
-    wrL (c :: d :: ds) ++ tl = wr c ++ (.comma :: (wrL (d :: ds) ++ tl)) := by
-  simp [wrL]
+theorem pc_comma (f : Nat) (rest : List Tok) (acc : List RT) (cr : Bool) (cnt : Nat) :
+    parseChildren (f + 1) (.comma :: rest) acc cr cnt = K f rest (if cr then acc else acc ++ [blank]) cr cnt := by
+  rw [parseChildren]
+  unfold K
+  rfl
 
-theorem wrL_head (d : RT) (ds : List RT) (tl : List Tok) : ∃ tl', wrL (d :: ds) ++ tl = wr d ++ tl' := by
-  cases ds with
-  | nil => exact ⟨tl, by simp [wrL]⟩
-  | cons e es => exact ⟨_, wrL_cons_head d e es tl⟩
+theorem K_comma (f : Nat) (X : List Tok) (acc1 : List RT) (cr : Bool) (cnt : Nat) :
+    K f (.comma :: X) acc1 cr cnt = K f X (acc1 ++ [blank]) cr cnt := by
+  simp [K, eatCommas]
+
+theorem K_rp (f : Nat) (rest : List Tok) (acc1 : List RT) (cr : Bool) (cnt : Nat) :
+    K (f + 1) (.rp :: rest) acc1 cr cnt = some (acc1 ++ [blank], rest) := by
+  simp [K, eatCommas, parseChildren]
+
+theorem K_child (f : Nat) (t : RT) (h : isBlank t = false) (tl : List Tok) (acc1 : List RT) (cr : Bool) (cnt : Nat) :
+    K f (wr t ++ tl) acc1 cr cnt = parseChildren f (wr t ++ tl) acc1 cr (cnt + 1) := by
+  rcases wr_head t h tl with ⟨r, hr⟩ | ⟨w, r, hr⟩ | ⟨r, hr⟩ <;> (rw [hr]; simp [K, eatCommas])
+
+/-- tokens after a child: nothing if it was the last one, else `,` and the remaining children -/
+def after (more : List RT) : List Tok := match more with | [] => [] | _ :: _ => .comma :: wrL more
+
+theorem wrL_cons (d : RT) (more : List RT) : wrL (d :: more) = wr d ++ after more := by
+  cases more <;> simp [wrL, after]
+
+/-- one non-blank child `d` followed by `more`, given what the parser does on `d` and (through `K`) on `more` -/
+theorem pc_nonblank (g : Nat) (d : RT) (hd : isBlank d = false) (more : List RT) (rest : List Tok)
+    (hrt : ∀ (dd : Follow) (rest' : List Tok), parseNode (g + 1) (wr d ++ dd.tok :: rest') = some (d, dd.after rest'))
+    (hK : more ≠ [] → ∀ acc1 cr cnt, K g (wrL more ++ .rp :: rest) acc1 cr cnt = some (acc1 ++ more, rest))
+    (acc : List RT) (cr : Bool) (cnt : Nat) :
+    parseChildren (g + 2) (wr d ++ (after more ++ .rp :: rest)) acc cr cnt = some (acc ++ d :: more, rest) := by
+  rw [pc_child (g + 1) d hd]
+  cases more with
+  | nil =>
+    have := hrt .rp rest
+    simp only [Follow.tok, Follow.after] at this
+    simp only [after, List.nil_append]
+    rw [this]
+    simp [contChild, parseChildren]
+  | cons e es =>
+    have := hrt .comma (wrL (e :: es) ++ .rp :: rest)
+    simp only [Follow.tok, Follow.after] at this
+    simp only [after, List.cons_append]
+    rw [this]
+    simp only [contChild]
+    rw [pc_comma, hK (by simp)]
+    simp
 
 mutual
-theorem rt : ∀ (t : RT), LL t → ∀ f, need t ≤ f → ∀ (d : Follow) (rest : List Tok),
+/-- the parser inverts the reference writer on every raw tree (blank nodes included) -/
+theorem rt : ∀ (t : RT) (f : Nat), need t ≤ f → ∀ (d : Follow) (rest : List Tok),
     parseNode f (wr t ++ d.tok :: rest) = some (t, d.after rest)
-  | .node l e [], h, f, hf, d, rest => by
-      simp only [LL] at h
+  | .node l e [], f, hf, d, rest => by
       obtain ⟨f', rfl⟩ : ∃ f', f = f' + 1 := ⟨f - 1, by simp [need, needL] at hf; omega⟩
       have hw : wr (.node l e []) ++ d.tok :: rest = lab l ++ ln e ++ d.tok :: rest := by simp [wr]
       rw [hw]
       have hts := tail_spec [] l e d rest
-      cases l with
-      | none =>
-        cases e with
-        | none => simp at h
-        | some x =>
-          simp only [lab, ln, List.nil_append, List.cons_append] at hts ⊢
-          rw [parseNode]
-          · exact hts
-          · intro _ h; cases h
-      | some w =>
-        simp only [lab, List.cons_append, List.nil_append] at hts ⊢
-        rw [parseNode]
-        · exact hts
-        · intro _ h; cases h
-  | .node l e (c :: cs), h, f, hf, d, rest => by
-      simp only [LL] at h
+      cases l <;> cases e <;> cases d <;>
+        (simp only [lab, ln, List.nil_append, List.cons_append, Follow.tok] at hts ⊢
+         rw [parseNode]
+         · exact hts
+         · intro _ h; cases h)
+  | .node l e (c :: cs), f, hf, d, rest => by
       obtain ⟨f', rfl⟩ : ∃ f', f = f' + 1 := ⟨f - 1, by simp [need] at hf; omega⟩
       have hw : wr (.node l e (c :: cs)) ++ d.tok :: rest =
           .lp :: (wrL (c :: cs) ++ .rp :: (lab l ++ ln e ++ d.tok :: rest)) := by
         simp [wr]
       rw [hw, parseNode]
-      have hL := rtL (c :: cs) (by simp) h.2 f' (by simp [need] at hf; omega) [] false 0
-        (lab l ++ ln e ++ d.tok :: rest)
+      have hL := rtTop (c :: cs) (by simp) f' (by simp [need] at hf; omega) (lab l ++ ln e ++ d.tok :: rest)
       rw [hL]
-      simp only [List.nil_append]
       exact tail_spec (c :: cs) l e d rest
-theorem rtL : ∀ (cs : List RT), cs ≠ [] → LLL cs → ∀ f, needL cs ≤ f →
-    ∀ (acc : List RT) (created : Bool) (count : Nat) (rest : List Tok),
-    parseChildren f (wrL cs ++ .rp :: rest) acc created count = some (acc ++ cs, rest)
-  | [], hne, _, _, _, _, _, _, _ => absurd rfl hne
-  | [c], _, h, f, hf, acc, created, count, rest => by
-      simp only [LLL] at h
+/-- the children loop from its start -/
+theorem rtTop : ∀ (cs : List RT), cs ≠ [] → ∀ f, needL cs ≤ f → ∀ (rest : List Tok),
+    parseChildren f (wrL cs ++ .rp :: rest) [] false 0 = some (cs, rest)
+  | [], hne, _, _, _ => absurd rfl hne
+  | d :: more, _, f, hf, rest => by
       simp only [needL] at hf
-      obtain ⟨f', rfl⟩ : ∃ f', f = f' + 1 := ⟨f - 1, by omega⟩
-      obtain ⟨f'', rfl⟩ : ∃ f'', f' = f'' + 1 := ⟨f' - 1, by omega⟩
-      have hw : wrL [c] ++ .rp :: rest = wr c ++ .rp :: rest := by simp [wrL]
-      rw [hw, pc_child (f'' + 1) c h.1]
-      have := rt c h.1 (f'' + 1) (by omega) .rp rest
-      simp only [Follow.tok, Follow.after] at this
-      rw [this]
-      simp [contChild, parseChildren]
-  | c :: d :: ds, _, h, f, hf, acc, created, count, rest => by
-      simp only [LLL] at h
+      have hneed : 2 ≤ need d := by cases d; simp [need]
+      obtain ⟨g, rfl⟩ : ∃ g, f = g + 2 := ⟨f - 2, by omega⟩
+      cases hb : isBlank d with
+      | true =>
+        have := blank_eq d hb; subst this
+        cases more with
+        | nil => simp [wrL, wr_blank, parseChildren]
+        | cons e es =>
+          have hk := rtK (e :: es) (by simp) (g + 1) (by simp [needL] at hf ⊢; omega) [blank] false 0 rest
+          simp only [wrL, wr_blank, List.nil_append, List.cons_append, List.append_assoc]
+          rw [pc_comma]
+          simpa using hk
+      | false =>
+        rw [wrL_cons, List.append_assoc]
+        have h := pc_nonblank g d hb more rest (fun dd rest' => rt d (g + 1) (by omega) dd rest')
+          (fun hne acc1 cr cnt => rtK more hne g (by omega) acc1 cr cnt rest) [] false 0
+        simpa using h
+/-- the children loop inside its `,` branch -/
+theorem rtK : ∀ (ds : List RT), ds ≠ [] → ∀ f, needL ds ≤ f → ∀ (acc1 : List RT) (cr : Bool) (cnt : Nat) (rest : List Tok),
+    K f (wrL ds ++ .rp :: rest) acc1 cr cnt = some (acc1 ++ ds, rest)
+  | [], hne, _, _, _, _, _, _ => absurd rfl hne
+  | d :: more, _, f, hf, acc1, cr, cnt, rest => by
       simp only [needL] at hf
-      obtain ⟨f', rfl⟩ : ∃ f', f = f' + 1 := ⟨f - 1, by omega⟩
-      obtain ⟨f'', rfl⟩ : ∃ f'', f' = f'' + 1 := ⟨f' - 1, by omega⟩
-      rw [wrL_cons_head, pc_child (f'' + 1) c h.1]
-      have := rt c h.1 (f'' + 1) (by omega) .comma (wrL (d :: ds) ++ .rp :: rest)
-      simp only [Follow.tok, Follow.after] at this
-      rw [this]
-      simp only [contChild]
-      rcases wrL_head d ds (.rp :: rest) with ⟨tl', htl⟩
-      rw [htl, pc_comma_child f'' d h.2.1, ← htl]
-      have := rtL (d :: ds) (by simp) ⟨h.2.1, h.2.2⟩ f'' (by simp [needL]; omega) (acc ++ [c]) true (count + 1 + 1) rest
-      rw [this]; simp
+      have hneed : 2 ≤ need d := by cases d; simp [need]
+      obtain ⟨g, rfl⟩ : ∃ g, f = g + 2 := ⟨f - 2, by omega⟩
+      cases hb : isBlank d with
+      | true =>
+        have := blank_eq d hb; subst this
+        cases more with
+        | nil => simp [wrL, wr_blank, K_rp]
+        | cons e es =>
+          have hk := rtK (e :: es) (by simp) (g + 2) (by simp [needL] at hf ⊢; omega) (acc1 ++ [blank]) cr cnt rest
+          simp only [wrL, wr_blank, List.nil_append, List.cons_append, List.append_assoc]
+          rw [K_comma]
+          simpa using hk
+      | false =>
+        rw [wrL_cons, List.append_assoc, K_child (g + 2) d hb]
+        exact pc_nonblank g d hb more rest (fun dd rest' => rt d (g + 1) (by omega) dd rest')
+          (fun hne acc1 cr cnt => rtK more hne g (by omega) acc1 cr cnt rest) acc1 cr (cnt + 1)
 end
 
 end Aux
@@ -261,29 +305,21 @@ namespace DendroModel.C02
 namespace Aux
 
 mutual
-theorem need_le : ∀ (t : RT), LL t → need t ≤ 4 * (wr t).length
-  | .node l e [], h => by
-    simp only [LL] at h
-    have : 1 ≤ (lab l ++ ln e).length := by
-      cases l <;> cases e <;> simp [lab, ln] at h ⊢
-    simp [need, needL, wr] at this ⊢
-    omega
-  | .node l e (c :: cs), h => by
-    simp only [LL] at h
-    have := needL_le (c :: cs) h.2
+theorem need_le : ∀ (t : RT), need t ≤ 6 * (wr t).length + 3
+  | .node l e [] => by simp [need, needL]
+  | .node l e (c :: cs) => by
+    have := needL_le (c :: cs)
     simp [need, wr] at this ⊢
     omega
-theorem needL_le : ∀ (cs : List RT), LLL cs → needL cs ≤ 4 * (wrL cs).length + 3
-  | [], _ => by simp [needL]
-  | [c], h => by
-    simp only [LLL] at h
-    have := need_le c h.1
+theorem needL_le : ∀ (cs : List RT), needL cs ≤ 6 * (wrL cs).length + 6
+  | [] => by simp [needL]
+  | [c] => by
+    have := need_le c
     simp [needL, wrL] at this ⊢
     omega
-  | c :: d :: ds, h => by
-    simp only [LLL] at h
-    have h1 := need_le c h.1
-    have h2 := needL_le (d :: ds) ⟨h.2.1, h.2.2⟩
+  | c :: d :: ds => by
+    have h1 := need_le c
+    have h2 := needL_le (d :: ds)
     simp only [needL] at h2 ⊢
     simp [wrL] at h2 ⊢
     omega
